@@ -4378,6 +4378,29 @@ def initial_param_order_mismatch(spec, muts, batched=True):
             if changed:
                 break
 
+    # ... and last: within each batch (SQLMutations separate batches) the
+    # mutations are regrouped by sorted(model name), keeping their order.
+    regrouped = []
+    segment = []
+
+    def close_segment():
+        names = sorted(set(desc[1] for desc in segment))
+
+        for name in names:
+            regrouped.extend(desc for desc in segment if desc[1] == name)
+
+        del segment[:]
+
+    for desc in muts:
+        if desc[0] in ('SQLMutation', 'DeleteApplication'):
+            close_segment()
+            regrouped.append(desc)
+        else:
+            segment.append(desc)
+
+    close_segment()
+    muts = regrouped
+
     state = SeqState(spec, protected=())
     runs = {}      # model -> list of (op order item)
     sig_order = {}
@@ -4492,25 +4515,6 @@ def initial_param_order_mismatch(spec, muts, batched=True):
 
     if last_model is not None:
         mismatch = flush(last_model) or mismatch
-
-    # The optimiser regroups the mutations by model, so all mutations of a
-    # model end up in one run: evaluate per model as well.
-    if not mismatch:
-        by_model = {}
-
-        for desc in muts:
-            if desc[0] in ('SQLMutation', 'DeleteApplication'):
-                continue
-
-            by_model.setdefault(desc[1], []).append(desc)
-
-        if len(by_model) > 1:
-            for model, model_muts in by_model.items():
-                if model in spec and initial_param_order_mismatch(
-                        OrderedDict([(model, spec[model])] + [
-                            (m, spec[m]) for m in spec if m != model]),
-                        model_muts):
-                    return True
 
     return mismatch
 
